@@ -855,7 +855,8 @@ class CrystalMap:
         map_size = np.prod(map_shape)
         if isinstance(item, np.ndarray):
             array = np.empty(map_size, dtype=item.dtype)
-            if item.shape[-1] == 3 and map_size > 3:  # Assume RGB
+            # Assume RGB (one value per point if 1D)
+            if item.ndim > 1 and item.shape[-1] == 3 and map_size > 3:
                 map_shape += (3,)
                 array = np.column_stack((array,) * 3)
         elif item in ["orientations", "rotations"]:  # Definitely RGB
